@@ -9,5 +9,10 @@ ROWS = {
   "exhaustive enumeration over the signature alphabet + property-based testing (rapid) against a naive reference scan",
   "Every prefix over {I,M,*,0x00,x} up to length 7 (quick) / 10 (thorough) in front of four header variants is enumerated; random long prefixes around the 32/64/4096/8192-byte buffer boundaries, sprinkled partial signatures, signature-free streams and signatures near the end of the stream through eight reader kinds; oracle: first index found by a naive scan, byte order and first-IFD offset read there, caller's bufio.Reader left at the header, ErrNoExif without a signature.",
   "Trusted: the 20-line reference scan. Streams whose only signature has fewer than 28 following bytes are outside the precondition and not asserted."),
+
+ "C16": ("exploration",
+  "exhaustive enumeration of 8/16-bit value types + property-based testing (rapid) of round trips and decoder totality + native fuzzing (thorough)",
+  "All values of the 8/16-bit types (incl. all 2^16 ExposureBias encodings) go through MessagePack Marshal/Unmarshal and Encode/Decode (identity, no leftover, Msgsize bound) and text/JSON where offered (exact for documented members, Marshal∘Unmarshal∘Marshal idempotent for every value, receivers pre-set to another value); floats, Dimensions, hashes, FocusDistance and UUIDs (all text forms x case) are generated; every decoder with an error result is run on arbitrary and near-valid input under recover.",
+  "Trusted: github.com/tinylib/msgp reader/writer, encoding/json. Members are the documented ones listed in the evidence assumptions. One recorded finding (ExposureMode text of undocumented values)."),
 }
 NOT_APPLICABLE = {}
